@@ -233,7 +233,7 @@ func C16Csv2() {
 		ra.Release(n)
 	}
 	failAt := zz.NondetChoice("failAt", len(t.input)+1)
-	rb := NewReader("t", &zzChunkReader{data: t.input, failAt: failAt, ioErr: zzIOErr}, decl, nil)
+	rb := NewReader("t", &zzChunkReader{data: t.input, failAt: failAt, ioErr: zzPickIOErr()}, decl, nil)
 	got := 0
 	pending, havePending := "", false
 	for i := 0; i < NR+3; i++ {
